@@ -208,6 +208,13 @@ func handlePayload(h *Handler, errResp errorResponder, p dataPayload, e xmlstrea
 
 	conn.readLock.Lock()
 	defer conn.readLock.Unlock()
+	if conn.readClosed {
+		_, err := xmlstream.Copy(e, errResp.Error(stanza.Error{
+			Type:      stanza.Cancel,
+			Condition: stanza.ItemNotFound,
+		}))
+		return err
+	}
 	if p.Seq != conn.seq {
 		_, err := xmlstream.Copy(e, errResp.Error(stanza.Error{
 			Type:      stanza.Cancel,
@@ -251,10 +258,7 @@ func handlePayload(h *Handler, errResp errorResponder, p dataPayload, e xmlstrea
 
 	// If a call to conn.Read was pending, signal it that it's okay to resume
 	// because there's data now.
-	select {
-	case conn.readReady <- struct{}{}:
-	default:
-	}
+	conn.wakeReader()
 	return nil
 }
 
